@@ -31,7 +31,7 @@ PROPS = {
    'swap_rejects_represented', 'swap_rejects_duplicate', 'melt_rejects_represented']),
  'C02': ("No inflation: outstanding ecash plus Lightning outflow never exceeds inflow", [
    'no_inflation_ledger', 'ledger_history_ok', 'no_inflation', 'no_inflation_reconf', 'no_inflation_ledger_reconf', 'swap_cut_signatures_imply_spent', 'swap_balanced', 'mint_within_quote', 'melt_burns_enough', 'validated_covers',
-   'melt_fee_limit', 'melt_fee_limit_mpp', 'request_melt_quote_fee']),
+   'melt_fee_limit', 'melt_fee_limit_mpp', 'request_melt_quote_fee', 'melt_amount_must_fit']),
  'C03': ("A mint quote is issued at most once per payment, never before it is paid", [
    'quote_issued_at_most_once_per_payment', 'internal_credits_are_melts', 'step_qinv', 'mint_needs_payment', 'mint_within_quote', 'mint_once',
    'mint_marks_issued', 'mint_nut20', 'watcher_only_unpaid', 'quotes_never_altered', 'mint_mint_race']),
@@ -55,7 +55,7 @@ PROPS = {
  'C16': ("Reported balances are exact and configured limits are enforced", [
    'balance_never_negative', 'step_bi', 'binv_bound', 'honest_history_ok', 'admin_total_is_total_balance', 'admin_issued_view', 'admin_redeemed_view',
    'issued_view_total', 'redeemed_view_total', 'total_balance_exact', 'signatures_are_exactly_what_was_returned',
-   'mint_limit_enforced', 'melt_limit_enforced', 'balance_limit_enforced', 'huge_quote_refused', 'info_disabled_iff']),
+   'mint_limit_enforced', 'melt_limit_enforced', 'melt_amount_must_fit', 'balance_limit_enforced', 'huge_quote_refused', 'info_disabled_iff']),
 }
 
 NOTES = {
